@@ -1,0 +1,73 @@
+//go:build verif
+// +build verif
+
+/*
+SPDX-License-Identifier: Apache-2.0
+*/
+
+// Package verifhooks re-exports internal entry points for the external verification harness.
+// It is only compiled with the "verif" build tag.
+package verifhooks
+
+import (
+	internaljws "github.com/trustbloc/sidetree-core-go/pkg/internal/jws"
+	"github.com/trustbloc/sidetree-core-go/pkg/internal/signutil"
+	"github.com/trustbloc/sidetree-core-go/pkg/jws"
+)
+
+// ParsedJWS is the result of parsing a compact JWS.
+type ParsedJWS struct {
+	ProtectedHeaders jws.Headers
+	Payload          []byte
+	Signature        []byte
+}
+
+// Signer is the signer interface accepted by the signing utilities.
+type Signer = signutil.Signer
+
+func convert(s *internaljws.JSONWebSignature) *ParsedJWS {
+	if s == nil {
+		return nil
+	}
+
+	return &ParsedJWS{ProtectedHeaders: s.ProtectedHeaders, Payload: s.Payload, Signature: s.Signature()}
+}
+
+// VerifyJWS calls internal/jws.VerifyJWS.
+func VerifyJWS(compact string, jwk *jws.JWK) (*ParsedJWS, error) {
+	s, err := internaljws.VerifyJWS(compact, jwk)
+
+	return convert(s), err
+}
+
+// ParseJWS calls internal/jws.ParseJWS.
+func ParseJWS(compact string) (*ParsedJWS, error) {
+	s, err := internaljws.ParseJWS(compact)
+
+	return convert(s), err
+}
+
+// VerifySignature calls internal/jws.VerifySignature.
+func VerifySignature(jwk *jws.JWK, signature, msg []byte) error {
+	return internaljws.VerifySignature(jwk, signature, msg)
+}
+
+// SignPayload calls internal/signutil.SignPayload.
+func SignPayload(payload []byte, signer Signer) (string, error) {
+	return signutil.SignPayload(payload, signer)
+}
+
+// SignModel calls internal/signutil.SignModel.
+func SignModel(model interface{}, signer Signer) (string, error) {
+	return signutil.SignModel(model, signer)
+}
+
+// NewJWSCompact calls internal/jws.NewJWS followed by SerializeCompact(false).
+func NewJWSCompact(protected jws.Headers, payload []byte, signer Signer) (string, error) {
+	s, err := internaljws.NewJWS(protected, nil, payload, signer)
+	if err != nil {
+		return "", err
+	}
+
+	return s.SerializeCompact(false)
+}
